@@ -21,8 +21,30 @@ var (
 	errSentinel = errors.New("sentinel-failure")
 	errWrapped  = fmt.Errorf("wrapped: %w", errSentinel)
 	errCustom   = &customErr{tag: "injected"}
-	injectKinds = []error{errSentinel, errWrapped, errCustom}
+	// the user's own wrapper around an error that flyt itself produced: a callback that ran a
+	// sub-flow by hand and returns "tenant X: <that run's error>"
+	errAroundSubRun = &wrapErr{tag: "tenant-7", inner: subRunError()}
+	injectKinds     = []error{errSentinel, errWrapped, errCustom, errAroundSubRun}
 )
+
+type wrapErr struct {
+	tag   string
+	inner error
+}
+
+func (e *wrapErr) Error() string { return e.tag + ": " + e.inner.Error() }
+func (e *wrapErr) Unwrap() error { return e.inner }
+
+// subRunError: the error a failing nested run returns (produced by the library itself).
+func subRunError() error {
+	bad := flyt.NewNode().WithExecFuncAny(func(ctxT, any) (any, error) { return nil, errors.New("sub-run exec failed") })
+	inner := flyt.NewFlow(bad)
+	err := flyt.NewFlow(inner).Run(ctxBackground(), flyt.NewSharedStore())
+	if err == nil {
+		panic("harness: the failing sub-run did not fail")
+	}
+	return err
+}
 
 // injectMenu: per callback, the ok answers (actions per `acts`) and — while
 // the failure budget allows — the three injected error values.
@@ -170,7 +192,7 @@ func genC04(tier string) []Scenario {
 		out = append(out, shapeScenario(fmt.Sprintf("inject shape#%d=%s", i, d), d, c04Kinds, mk, i%2 == 0))
 	}
 	// a batch node as a flow step: prep / post failures are run-ending and wrapped transparently
-	for _, where := range []string{"prep", "post", "none"} {
+	for _, where := range []string{"prep", "post", "post+item-failure", "none"} {
 		for ek, e := range injectKinds {
 			where, e := where, e
 			if where == "none" && ek > 0 {
@@ -200,11 +222,14 @@ func genC04(tier string) []Scenario {
 						}).
 						WithExecFunc(func(_ ctxT, it flyt.Result) (flyt.Result, error) {
 							trace = append(trace, "B.exec")
+							if where == "post+item-failure" && it.Value() == 1 {
+								return flyt.Result{}, errors.New("item 1 failed") // an item error is not run-ending
+							}
 							return it, nil
 						}).
 						WithPostFunc(func(ctxT, *flyt.SharedStore, []flyt.Result, []flyt.Result) (flyt.Action, error) {
 							trace = append(trace, "B.post")
-							if where == "post" {
+							if where == "post" || where == "post+item-failure" {
 								return "", e
 							}
 							return flyt.DefaultAction, nil
@@ -217,7 +242,7 @@ func genC04(tier string) []Scenario {
 					switch where {
 					case "prep":
 						want = want[:2]
-					case "post":
+					case "post", "post+item-failure":
 						want = want[:5]
 					}
 					if fmt.Sprint(trace) != fmt.Sprint(want) {
